@@ -38,6 +38,19 @@ def r1(ctx):
     c = one(dec.calls(r'Cipher::decrypt$'), 'cipher.decrypt in RawEncryptedField::decrypt')
     a = [S(x) for x in dec.call_args(c)]
     ctx.check('RawEncryptedField::decrypt|args', a[1:] == ['self.nonce', 'self.ciphertext', 'aad'], 'cipher.decrypt(%s)' % a[1:], c.where(), sample=a[1:])
+    # nothing is reported as decrypted (Ok) unless the AEAD call itself succeeded: every non-Err result of RawEncryptedField::decrypt lies past
+    # `cipher.decrypt(..) is Ok`, and the cipher implementations return the AEAD primitive's own verdict
+    aead_ok = fact_is(r'^Cipher::decrypt\(cipher, self\.nonce, self\.ciphertext, aad\)$', 'Ok')
+    outs = [(s, v) for s, v in ret_assigns(dec) if not v.startswith('Result::Err')]
+    ctx.check('RawEncryptedField::decrypt|ok-sites', len(outs) >= 1, 'no success result found', sample=len(outs))
+    for s, v in outs:
+        ctx.guard(dec, s, 'aead-verified', aead_ok, key='RawEncryptedField::decrypt|Ok|aead-verified',
+                  msg='RawEncryptedField::decrypt can report success (`%s`) without a successful cipher.decrypt: content is treated as authenticated although the AEAD tag was never checked' % v[:60])
+    for w in ('256', '512'):
+        cd = ctx.P.body('<%s::AesSivCmac%s as %s::Cipher>::decrypt' % (CR, w, CR))
+        rv = [v for _, v in ret_assigns(cd)]
+        ctx.check('AesSivCmac%s|decrypt|verdict-of-siv' % w, len(rv) == 1 and re.match(r'^Result::map_err\(Siv::decrypt\(Siv::new\(self\.key\), \[associated_data, nonce\], ciphertext\), ', rv[0]) is not None,
+                  'AesSivCmac%s::decrypt returns %s' % (w, [x[:100] for x in rv]), sample=[x[:80] for x in rv])
 
 
 def r2(ctx):
@@ -113,4 +126,4 @@ def r4(ctx):
 
 
 RULES = [r1, r2, r3, r4]
-FLOORS = {'C25-R1': 6, 'C25-R2': 6, 'C25-R3': 8, 'C25-R4': 4}
+FLOORS = {'C25-R1': 10, 'C25-R2': 6, 'C25-R3': 8, 'C25-R4': 4}
